@@ -118,6 +118,10 @@ SPECS['C10'] = {'runs': {'quick': shorten_runs(['C10'], 'quick'), 'thorough': sh
 SPECS['C11'] = {'runs': {'quick': [R('equals', 'h_equals.c', ['KE=1', 'SEGL=1', 'EFLAGS=(G_SCHEME_OPT|G_AUTH|G_QUERY|G_FRAG)'], 'two texts: [scheme] [//host] path<=1 segment [?q] [#f], 1-char pieces', ['equal', 'different'], 600),
                                    R('equals-hosts-q', 'h_equals.c', ['KE=0', 'SEGL=1', 'EFLAGS=(G_AUTH_REQ|G_HOSTKINDS)'], 'two authorities with every host kind (reg-name, IPv4, IPv6, IPvFuture; symbolic digits)', ['equal', 'different'], 600),
                                    R('equals-paths', 'h_equals.c', ['KE=2', 'SEGL=1', 'EFLAGS=(G_SCHEME_OPT|G_AUTH)'], 'two texts [scheme] [//host] path of <=2 one-character segments (segment lists of different lengths, prefixes of each other)', ['equal', 'different'], 600),
+                                   R('equals-hostkind-lookalike', 'h_equals.c', ['KE=0', 'SEGL=1', 'GEN_REGNAME_FUTURELIKE', 'EFLAGS=(G_AUTH_REQ|G_HOSTKINDS)'], 'two authorities with every host kind plus a reg-name spelled like the inside of an IPvFuture literal (v1.x against [v1.x])', ['equal', 'different'], 600),
+                                   R('equals-shared-buffer', 'h_equals.c', ['KE=1', 'SEGL=1', 'GEN_COMP_L=1', 'SHARED_BUFFER', 'EFLAGS=(G_SCHEME_OPT|G_AUTH|G_USERINFO|G_PORT|G_QUERY|G_FRAG)'], 'second URI parsed from a prefix or a suffix of the first URI\'s own buffer (component ranges that start or end at the same address)', ['equal', 'different'], 600),
+                                   R('equals-authority-len2', 'h_equals.c', ['KE=0', 'SEGL=1', 'GEN_COMP_L=2', 'EFLAGS=(G_AUTH_REQ|G_USERINFO|G_PORT)'], 'two authorities: user info absent / empty / 1..2 characters, reg-name of 1..2 characters, port absent / empty / 1..2 digits', ['equal', 'different'], 600),
+                                   R('equals-tail-len2', 'h_equals.c', ['KE=0', 'SEGL=1', 'GEN_COMP_L=2', 'EFLAGS=(G_SCHEME_OPT|G_SCHEME2|G_QUERY|G_FRAG)'], 'two texts [scheme of 1..2 letters] [?query of <=2] [#fragment of <=2]', ['equal', 'different'], 600),
                                    R('equals-produced', 'h_normres.c', ['KB=1', 'KR=2', 'SEGL=2'], 'pairs of URIs produced by resolve/normalise from the same reference: equal exactly when the recomposed texts are identical', ['ref-relative-path'], 600, kf_of='C09')],
                          'thorough': [R('equals', 'h_equals.c', ['KE=1', 'SEGL=1', 'EFLAGS=(G_SCHEME_OPT|G_AUTH|G_QUERY|G_FRAG)'], 'as quick', ['equal', 'different'], 900),
                                       R('equals-paths', 'h_equals.c', ['KE=3', 'SEGL=1', 'EFLAGS=(G_SCHEME_OPT|G_AUTH)'], 'two texts with <=3 segments', ['equal', 'different'], 2400),
